@@ -55,7 +55,7 @@ def run(spec):
         return result
 
     if spec.get('replay') is not None:
-        cases = [(spec.get('replay_index', 0), spec['replay'])]
+        cases = [(spec.get('replay_index', 0), core.revive_ints(spec['replay']))]
     else:
         stream = mod.cases(spec['tier'], spec['seed'], spec)
         cases = itertools.islice(enumerate(stream), spec['shard'], None, spec['nshards'])
